@@ -262,6 +262,9 @@ func (p *Program) instrPos(in ssa.Instruction) string {
 	if in.Pos().IsValid() {
 		return p.Pos(in.Pos())
 	}
+	if iff, ok := in.(*ssa.If); ok && iff.Cond.Pos().IsValid() {
+		return p.Pos(iff.Cond.Pos())
+	}
 	if v, ok := in.(ssa.Value); ok {
 		for _, r := range *v.Referrers() {
 			if r.Pos().IsValid() {
